@@ -26,7 +26,7 @@ neighbor 127.0.0.2 {
   peer-as 65002;
   %(group)s
   capability { route-refresh enable; %(addpath)s }
-  family { ipv4 unicast; ipv6 unicast; }
+  family { ipv4 unicast; ipv6 unicast; ipv4 nlri-mpls; }
   static {
     %(conf)s
   }
@@ -42,6 +42,9 @@ ROUTES = {
     'By': 'route 10.0.1.0/24 next-hop 1.1.1.1 med 20',
     'Dx': 'route 2001:db8::/32 next-hop 2001:db8::1 med 10',
     'Dy': 'route 2001:db8::/32 next-hop 2001:db8::1 med 20',
+    # a labelled route: another address family under the very same attribute sets and next hop as Ax / Ay
+    'Lx': 'route 10.0.4.0/24 label [ 100 ] next-hop 1.1.1.1 med 10',
+    'Ly': 'route 10.0.4.0/24 label [ 100 ] next-hop 1.1.1.1 med 20',
 }
 ROUTES_AP = {
     'Ax': 'route 10.0.0.0/24 path-information 0.0.0.1 next-hop 1.1.1.1 med 10',
@@ -57,6 +60,8 @@ ABSTRACT = {
     'By': (('B',), '1.1.1.1', 20),
     'Dx': (('D',), '2001:db8::1', 10),
     'Dy': (('D',), '2001:db8::1', 20),
+    'Lx': (('L',), '1.1.1.1', 10),
+    'Ly': (('L',), '1.1.1.1', 20),
 }
 PFX = {
     'A': wire.nlri_key(wire.nlri_ip(1, 1, '10.0.0.0', 24)),
@@ -64,6 +69,7 @@ PFX = {
     'C': wire.nlri_key(wire.nlri_ip(1, 1, '10.0.3.0', 24)),
     'W': wire.nlri_key(wire.nlri_ip(1, 1, '10.0.2.0', 24)),
     'D': wire.nlri_key(wire.nlri_ip(2, 1, '2001:db8::', 32)),
+    'L': wire.nlri_key(wire.nlri_ip(1, 4, '10.0.4.0', 24, labels=(100,))),
 }
 
 CONF = ['route 10.0.3.0/24 next-hop 1.1.1.1 med 10', 'route 10.0.2.0/24 next-hop 1.1.1.1 med 10 watchdog dog']
@@ -77,6 +83,8 @@ VARIANTS = {
     # in front (next hop and attributes of the *x* flavour), not the bare prefix
     'ungrouped': dict(group='group-updates false;', addpath='', wd_full=True, ops=['Ax', 'Ay', 'Az', 'Bx', '-A', '-B', 'wd+', 'wd-', 'flush', 'clear', 'pull']),
     'v6': dict(group='group-updates true;', addpath='', ops=['Ax', 'Ay', 'Dx', 'Dy', '-A', '-D', 'eflush', 'clear', 'pull']),
+    # two address families whose routes share attribute sets: the queue is keyed by attribute set, then family
+    'labeled': dict(group='group-updates true;', addpath='', ops=['Ax', 'Ay', 'Lx', 'Ly', '-A', '-L', 'flush', 'clear', 'pull']),
     'addpath': dict(group='group-updates true;', addpath='add-path send/receive;', ops=['Ax', 'Ay', 'Az', 'Bx', '-A', '-A2', 'flush', 'clear', 'pull']),
 }
 
@@ -117,7 +125,7 @@ def world(variant: str):
     conf = CONF_AP if variant == 'addpath' else CONF
     cfg, neighbor = exa.neighbor_from_text(CONFIG % dict(v, conf=' '.join(c + ';' for c in conf)))
     addpath = [(1, 1, 3)] if v['addpath'] else None
-    neg = exa.negotiated_for(neighbor, exa.peer_open_body(65002, [(1, 1), (2, 1)], addpath=addpath))
+    neg = exa.negotiated_for(neighbor, exa.peer_open_body(65002, [(1, 1), (2, 1), (1, 4)], addpath=addpath))
     api = API.__new__(API)
     from exabgp.configuration.configuration import Configuration
 
@@ -236,7 +244,7 @@ class State:
             key, nh, med = self._abs(op)
             self.intended[key] = (nh, med)
         elif op.startswith('-'):
-            name = {'-A': 'Ax', '-B': 'Bx', '-D': 'Dx', '-A2': 'Az'}[op]
+            name = {'-A': 'Ax', '-B': 'Bx', '-D': 'Dx', '-A2': 'Az', '-L': 'Lx'}[op]
             self.rib.del_from_rib(w['wd'][name])
             key, _, _ = self._abs(name)
             self.intended.pop(key, None)
@@ -312,7 +320,8 @@ def _key_from_text(route):
     pid = None
     if 'path-information' in words:
         pid = int(ipaddress.ip_address(words[words.index('path-information') + 1]))
-    key = wire.nlri_key(wire.nlri_ip(afi, 1, str(net.network_address), net.prefixlen, path_id=pid))
+    safi = 4 if 'label' in words else 1
+    key = wire.nlri_key(wire.nlri_ip(afi, safi, str(net.network_address), net.prefixlen, path_id=pid))
     return key
 
 
@@ -392,7 +401,7 @@ def _expand(args):
 
 def run(ctx: core.Ctx) -> None:
     depth = int(os.environ.get('C04_DEPTH', '6' if ctx.tier == 'quick' else '7'))
-    variants = ['grouped', 'ungrouped', 'v6', 'addpath']
+    variants = ['grouped', 'ungrouped', 'v6', 'labeled', 'addpath']
     ctx.rule = ('BFS over all operation sequences (announce same prefix with 2 attribute sets / 2 next hops / 2 path ids, '
                 'withdraw (bare prefix; in the ungrouped variant the full announce line, i.e. with attributes), watchdog +/-, flush, enhanced flush, clear, transmitter pull) up to depth %d on a real OutgoingRIB driven '
                 'through the real Protocol.new_update_generator; a state is non-trivial when the drained peer table is non-empty '
